@@ -23,6 +23,12 @@ Theorem c14_bloom_alloc_justified :
   forall bs, long_form bs -> bf_alloc_bytes bs + 32 <= N.of_nat (length bs) \/ bf_alloc_bytes bs = 0.
 Proof. exact alloc_justified. Qed.
 
+(* the known exception, as a witness: a short-form image exists on which the allocation is out of proportion *)
+Theorem c14_bloom_known_empty_alloc :
+  ~ long_form empty_alloc_image /\ length empty_alloc_image = 24%nat /\
+  bf_alloc_bytes empty_alloc_image = 536870912 /\ 64 * 24 + 1048576 < bf_alloc_bytes empty_alloc_image.
+Proof. exact empty_alloc_witness. Qed.
+
 (* a value returned as Ok can be queried, updated, inverted, merged and re-serialized without reaching a panic site *)
 Theorem c14_bloom_ok_is_usable :
   forall f, wf f ->
